@@ -15,6 +15,7 @@ import c02
 import c03
 import glue
 import summ
+import sym
 from c20 import _Sub
 from glueprops import run_groups
 
@@ -94,7 +95,21 @@ def run(run_, ctx):
         site = sv[0][2]
         run_.check(not bads, "T1", kind, ("%s / %s are not inverse: " % (sm, dm)) + (bads[0] if bads else ""), site, found=bads,
                    detail="%s writes what %s reads back" % (sm, dm))
-    run_.floor("T1", 37)
+    # serde's own impls (net addresses, and third-party types such as uuid/chrono) choose between a compact and a textual form by asking
+    # the format; the writer and the reader must give the same answer (serde's default, when the method is not overridden, is `true`)
+    def human_readable(trait, self_prefix):
+        fs = [f for f in pc.fns if f.name == "is_human_readable" and f.impl_trait == trait and (f.impl_self or "").startswith(self_prefix)]
+        if not fs:
+            return True, None
+        ps = [p for p in sym.Engine(F, max_visits=2).run(fs[0]) if p.status == "return"]
+        vals = set(p.ret[1] if sym.is_c(p.ret) else None for p in ps)
+        return (bool(vals.pop()) if len(vals) == 1 and None not in vals else None), fs[0]
+    hs, fs_ = human_readable("serde_core::ser::Serializer", "&mut ser::serializer::Serializer<")
+    hd, fd_ = human_readable("serde_core::de::Deserializer", "&mut de::deserializer::Deserializer<")
+    run_.check(hs is not None and hs == hd, "T1", "is_human_readable",
+               "Serializer answers is_human_readable() = %s but Deserializer answers %s: types that pick their representation by this flag do not round-trip" % (hs, hd),
+               (fs_ or fd_).where() if (fs_ or fd_) else None, detail="both sides answer %s" % hs)
+    run_.floor("T1", 38)
     # B1
     for (kind, canon, *rest), (info, why) in sorted(helpers.memo.items(), key=lambda kv: str(kv[0])):
         nm = {"W": "canonical varint writer", "R": "varint reader", "ZE": "zig-zag", "ZD": "inverse zig-zag"}.get(kind)
